@@ -132,9 +132,22 @@ def gen_ops(rng, case, thorough):
     if vec:
         rows = rng.randint(1, 3)
         ops.append(dict(op='apply_matrix', arg=[[dy(-8, 8) for _ in range(m)] for _ in range(rows)], **G))
-        ops.append(dict(op='getitem', arg=rng.randrange(m), **G))
         if m == 2:
             ops.append(dict(op='rotate_2d', arg=hx(rng.choice([0.5, -1.25, 2.0, math.pi / 2, 3.0, -0.1])), **G))
+    if len(tail) >= 1:
+        # component selection with every index kind (the index acts on the last trailing axis, length n)
+        n = tail[-1]
+        sl_pool = [[None, None, None], [1, None, None], [None, None, -1], [None, -1, None], [-2, None, None], [None, None, 2],
+                   [-1, None, -1], [0, n, None], [-n, None, 2], [None, -n - 1, -1], [n + 2, None, -2]]
+        sl_pool = [sl for sl in sl_pool if len(range(*slice(*sl).indices(n))) > 0]
+        picks = [{'int': -1}, {'int': rng.randrange(-n, n)}, {'slice': rng.choice([sl for sl in sl_pool if sl[1] is None])},
+                 {'slice': rng.choice(sl_pool)},
+                 {rng.choice(['list', 'tuple']): [rng.randrange(-n, n) for _ in range(rng.randint(1, 3))] + [-1]}]
+        if thorough:
+            picks += [{'int': i} for i in range(-n, n)] + [{'slice': sl} for sl in sl_pool] + [{'list': [n - 1, -n]}, {'tuple': [0, -1]}]
+        for a in picks:
+            ops.append(dict(op='getitem', arg=a, **G))
+        ops.append(dict(op='getitem', arg={'int': rng.choice([n, -n - 1, n + 3])}, expect='IndexError'))
     ops.append(dict(op='copy', **G))
     if len(tail) <= 1:
         ops.append(dict(op='as_nurbs', **G))
@@ -483,6 +496,12 @@ def run_ops(ck):
             if isinstance(got, list) or got == 'ValueError':
                 ck.coq_ops.append('opair_eqb (%s) (%s)' % (term, gt))
             continue
+        if op.get('expect'):
+            if r['status'] != op['expect']:
+                ck.fail('op-%s-no-%s' % (name, op['expect']), '%s(%r) gives %s, expected %s' % (name, op.get('arg'), r['status'], op['expect']))
+            if name == 'getitem':
+                ck.coq_ops.append('match ix_int %d%%nat (%d)%%Z with None => true | Some _ => false end' % (tail[-1], op['arg']['int']))
+            continue
         if r['status'] != 'Ok':
             ck.fail('op-%s-raises-%s' % (name, r['status']), '%s raised %s: %s' % (name, r['status'], r.get('msg')), op=op.get('arg'))
             continue
@@ -538,9 +557,47 @@ def run_ops(ck):
                 coq = 'check_arr %s (%s_matrix F (mat %s) %d%%nat) %s' % (
                     cqc(barr(m, argmax)), 'b' if kind == 'bsp' else 'n', clist([cql(row) for row in A]), len(A), cql([fr(h) for h in r['coeffs']['v']]))
         elif name == 'getitem':
-            I = int(op['arg'])
-            expected = lambda xs, I=I: [value_of(ck.of, kind, xs)[I]]
-            coq = 'check_arr %s (%s_getitem F %d%%nat) %s' % (cqc(barr(1, 1)), 'b' if kind == 'bsp' else 'n', I, cql([fr(h) for h in r['coeffs']['v']]))
+            a = op['arg']
+            n = tail[-1]
+            lead = m // n
+            wrap = lambda i: i + n if i < 0 else i
+            if 'int' in a:
+                ks, rtail = [wrap(a['int'])], tail[:-1]
+                oks = 'ix_int %d%%nat (%d)%%Z' % (n, a['int'])
+            elif 'slice' in a:
+                ks = list(range(*slice(*a['slice']).indices(n)))
+                rtail = tail[:-1] + [len(ks)]
+                opt = lambda v: 'None' if v is None else '(Some (%d)%%Z)' % v
+                oks = 'Some (py_slice %d%%nat %s %s (%d)%%Z)' % (n, opt(a['slice'][0]), opt(a['slice'][1]), 1 if a['slice'][2] is None else a['slice'][2])
+            else:
+                l = a.get('list', a.get('tuple'))
+                ks = [wrap(i) for i in l]
+                rtail = tail[:-1] + [len(ks)]
+                oks = 'py_list %d%%nat %s' % (n, clist(['(%d)%%Z' % i for i in l]))
+            comps = [r_ * n + k for r_ in range(lead) for k in ks]
+            expected = lambda xs, comps=comps: [value_of(ck.of, kind, xs)[c_] for c_ in comps]
+            N_ = [len(k['kv']) - k['p'] - 1 for k in f['kvs']]
+            exp_shape = N_ + (rtail if kind == 'bsp' else [len(ks) + 1])
+            if r['coeffs']['shape'] != exp_shape:
+                ck.fail('op-getitem-shape', '__getitem__(%r): coefficient array of shape %s, the selection of the map has components %s (expected %s)' % (
+                    a, r['coeffs']['shape'], rtail, exp_shape), op=a)
+                continue
+            coq = 'check_sel %s %s F %d%%nat %d%%nat (%s) %s' % ('true' if kind == 'nurbs' else 'false', cqc(barr(1, 1)), lead, n, oks,
+                                                                cql([fr(h) for h in r['coeffs']['v']]))
+            # the implementation's own evaluation of the selected function: values and Jacobians
+            Gs = [len(ax) for ax in op['grid']]
+            ge = ck.route(r['grid_eval'], '__getitem__(..).grid_eval', Gs + rtail)
+            gj = ck.route(r['grid_jac'], '__getitem__(..).grid_jacobian', Gs + rtail + [sdim])
+            nsel = len(comps)
+            for k_, xs in enumerate(pts_res):
+                (v, J, _), (b0, b1, _) = exact_at(ck.of, kind, xs)
+                b0, b1 = 2 * O.pow2_ceil(b0), 2 * O.pow2_ceil(b1)
+                if ge is not None:
+                    ck.cmp('op-getitem-values', ge[k_ * nsel:(k_ + 1) * nsel], [v[c_] for c_ in comps], b0,
+                           '__getitem__(%r): values differ from the selected components of the map' % (a,), xs)
+                if gj is not None:
+                    ck.cmp('op-getitem-jacobian', gj[k_ * nsel * sdim:(k_ + 1) * nsel * sdim], [x for c_ in comps for x in J[c_]], b1,
+                           '__getitem__(%r): Jacobian differs from the selected rows of the Jacobian of the map' % (a,), xs)
         elif name in ('copy', 'as_vector'):
             expected = lambda xs: value_of(ck.of, kind, xs)
             if kvs_equal(r['kvs'], f['kvs']) is False:
